@@ -3,7 +3,9 @@ import replica
 
 
 def run(ctx, replay):
-    replica.run(ctx, "C06", replay)
+    # family stakefail: a validator without power stakes again with a gas limit its fee step cannot meet (the handler has
+    # run to the end when the transaction fails), or stakes properly and sends a failing unstake of everything
+    replica.run(ctx, "C06", replay, families=replica.FAMILIES + ["stakefail"])
     ctx.cov.setdefault("rule", RULE)
 
 
